@@ -83,3 +83,9 @@ package models
 //@   ensures result == nil ==> r.Limit >= 1 && r.Limit <= 100 && r.Offset >= 0 && len(r.Sort) <= 10
 //@   ensures result == nil ==> callres(Validate, 1, 0) == nil
 //@   loop 1 invariant rangeindex >= -1 && rangeindex < len(r.Sort)
+
+// Schema validation looks at the schema only (trusted frame; its accept/refuse behaviour is not
+// under contract here).
+//@ func (IndexSchema).Validate
+//@   trusted
+//@   pure
